@@ -194,8 +194,8 @@ structure LMState (K V W M : Type) where
   f : K
   i : Nat
 
-/-- `res = A`, `jac = jacfun`, `jtv J r = J.T @ r`, `insolve J nu g` = the `s` with
-    `(JᵀJ + nu·I) s = g` (a leaf: any solver; the driver checks the equation on what it uses). -/
+/- `res = A`, `jac = jacfun`, `jtv J r = J.T @ r`, `insolve J nu g` = the `s` with
+   `(JᵀJ + nu·I) s = g` (a leaf: any solver; the driver checks the equation on what it uses). -/
 variable (oV : VOps K V) (oW : VOps K W) (res : V → W) (jac : V → M) (jtv : M → W → V)
   (insolve : M → K → V → V) (nu0 gradtol : K)
 
